@@ -6,6 +6,7 @@ import (
 	"fmt"
 	"go/token"
 	"go/types"
+	"strings"
 
 	"golang.org/x/tools/go/ssa"
 )
@@ -662,4 +663,59 @@ func c17R8(c *Ctx) {
 		fs.report(c, rule, name, []string{"err-only-in-error-state"}, P.Pos(fn.Pos()), fmt.Sprintf("holds on all %d paths that return c.err", n))
 		c.Floor(rule, "paths of Handshake that return c.err", n, 1)
 	}
+}
+
+// c17R9: a timer callback acts on what it finds, not on what it remembers. The tables of handshakes and
+// sessions change between the arming of a timer and its expiry (a retransmitted ClientAck replaces the
+// pending handshake of an address; a session completes or is closed). A callback given to
+// time.AfterFunc in package transport therefore looks the state up again under the lock and captures
+// only what it needs for the lookup (the server / client object, addresses, ids): it has no free
+// variable holding a *HandshakeState or *SessionState. One that does removes or closes the object that
+// armed the timer even when another one took its place — an established session disappears from the
+// table, Server.Close no longer closes its handle, and a blocked Read on it is never released.
+func c17R9(c *Ctx) {
+	P := c.P
+	const rule = "C17.R9"
+	c.Rule(rule, "timer callbacks act on what they find: a function literal given to time.AfterFunc in package transport captures no *HandshakeState / *SessionState (it re-fetches them under the lock); acting on a captured object removes the state that armed the timer even after another took its place (def-use of closure bindings)")
+	isState := func(t types.Type) bool {
+		for i := 0; i < 3; i++ {
+			if p, ok := t.(*types.Pointer); ok {
+				t = p.Elem()
+				continue
+			}
+			break
+		}
+		n, ok := t.(*types.Named)
+		return ok && n.Obj().Pkg() != nil && strings.HasSuffix(n.Obj().Pkg().Path(), "/transport") && (n.Obj().Name() == "HandshakeState" || n.Obj().Name() == "SessionState")
+	}
+	n := 0
+	for _, f := range P.ModuleFuncs("transport") {
+		if f.Blocks == nil {
+			continue
+		}
+		eachInstr(f, func(ins ssa.Instruction) {
+			call, ok := ins.(*ssa.Call)
+			if !ok || calleeID(call) != "time.AfterFunc" || len(call.Call.Args) != 2 {
+				return
+			}
+			mc, ok := call.Call.Args[1].(*ssa.MakeClosure)
+			if !ok {
+				return // a method value or a function without bindings: nothing captured
+			}
+			n++
+			cons := fmt.Sprintf("%s#timer%d", FuncName(f), n)
+			bad := ""
+			for i, b := range mc.Bindings {
+				if isState(b.Type()) {
+					name := "?"
+					if fn2, ok := mc.Fn.(*ssa.Function); ok && i < len(fn2.FreeVars) {
+						name = fn2.FreeVars[i].Name()
+					}
+					bad = name
+				}
+			}
+			c.Check(bad == "", rule, cons, P.InstrPos(call), "captures no handshake / session object", "the timer callback captures the handshake / session object "+bad+" that armed it instead of fetching the current one under the lock: when another handshake took its place the callback removes the wrong session (an established one leaves the table; Close never closes its handle)")
+		})
+	}
+	c.Floor(rule, "time.AfterFunc callbacks in transport", n, 1)
 }
